@@ -23,10 +23,11 @@ LIMIT = 79          # 80 characters including the newline
 
 class Iv:
     """length interval of a string value; `num` marks values that are numbers (their text never ends in '-')"""
-    __slots__ = ("lo", "hi", "kind")
+    __slots__ = ("lo", "hi", "kind", "unsup")
 
-    def __init__(self, lo=0, hi=INF, kind="str"):
-        self.lo, self.hi, self.kind = lo, hi, kind
+    def __init__(self, lo=0, hi=INF, kind="str", unsup=None):
+        # unsup: set when the bound is unknown because a construct is not modelled (as opposed to data of any length)
+        self.lo, self.hi, self.kind, self.unsup = lo, hi, kind, unsup
 
     def __repr__(self):
         return f"[{self.lo},{'inf' if self.hi == INF else self.hi}]"
@@ -37,7 +38,11 @@ def iv_join(a: Optional[Iv], b: Optional[Iv]) -> Iv:
         return b
     if b is None:
         return a
-    return Iv(min(a.lo, b.lo), max(a.hi, b.hi), a.kind if a.kind == b.kind else "str")
+    return Iv(min(a.lo, b.lo), max(a.hi, b.hi), a.kind if a.kind == b.kind else "str", a.unsup or b.unsup)
+
+
+def U(what: str) -> Iv:
+    return Iv(0, INF, "str", what)
 
 
 class LenInterp:
@@ -224,13 +229,75 @@ class LenInterp:
             if isinstance(n.func, ast.Attribute) and n.func.attr in ("extend",) and n.args:
                 recv = n.func.value
                 if isinstance(recv, ast.Name):
-                    self.appends.append((fi, n, Iv(), recv.id))
+                    src = n.args[0]
+                    if isinstance(src, (ast.List, ast.Tuple)) and src.elts:
+                        iv = None
+                        for x in src.elts:
+                            iv = iv_join(iv, self.ev(fi, x, env))
+                    elif isinstance(src, (ast.ListComp, ast.GeneratorExp)):
+                        iv = self.ev(fi, src.elt, env)
+                    else:
+                        iv = U(f"elements of `{short(src, 40)}`")
+                    self.appends.append((fi, n, iv, recv.id))
             cs = self.ctx.cg.resolve_call(fi, n, self.ctx.cg.local_types(fi), set(params_of(fi.node)))
             if cs.kind == "tucan":
                 tp = params_of(cs.target.node)
                 for p, a in zip(tp, n.args):
                     k = (cs.target.fq, p)
                     self.calls[k] = iv_join(self.calls.get(k), self.ev(fi, a, env))
+
+    def template(self, fi, parts, env) -> Iv:
+        """length of literal pieces and formatted fields: parts = [(literal, None, None) | (None, value expr, spec expr or str)]"""
+        lo = hi = 0
+        derived = False
+        unsup = None
+        for lit, val, spec_e in parts:
+            if lit is not None:
+                lo += len(lit); hi += len(lit)
+                continue
+            v = self.ev(fi, val, env)
+            vlo, vhi = v.lo, v.hi
+            vun = v.unsup
+            if spec_e is not None:
+                spec = spec_e if isinstance(spec_e, str) else try_const(self.ctx, fi, spec_e)
+                if isinstance(spec, str) and "%" in spec:
+                    # a strftime pattern as format spec of a date/time value
+                    n, i, okw = 0, 0, True
+                    while i < len(spec):
+                        if spec[i] == "%" and i + 1 < len(spec):
+                            w = STRFTIME_WIDTH.get(spec[i:i + 2])
+                            if w is None:
+                                okw = False
+                                break
+                            n += w; i += 2
+                        else:
+                            n += 1; i += 1
+                    if okw:
+                        vlo = vhi = n
+                        vun = None
+                    else:
+                        vlo, vhi, vun = 0, INF, f"strftime directive in `{spec}`"
+                else:
+                    w = _spec_min_width(spec) if isinstance(spec, str) else None
+                    if w is None and spec:
+                        vlo, vhi = 1, INF
+                        vun = vun or f"format spec `{spec}`"
+                    elif w is None and spec is None:
+                        vlo, vhi = 0, INF
+                        vun = vun or "format spec is not a constant"
+                    elif w:
+                        vlo = max(vlo, w)
+                        vhi = max(vhi, w)
+                    if isinstance(spec, str) and spec.endswith("f"):
+                        vlo, vhi = 1, INF
+                        vun = None      # a float of any magnitude: genuinely unbounded
+            lo += vlo
+            hi += vhi
+            if v.kind == "derived" and vhi == INF:
+                derived = True
+            if vhi == INF and vun:
+                unsup = unsup or vun
+        return Iv(lo, hi, "derived" if derived else "str", unsup if hi == INF else None)
 
     def ev(self, fi, e, env) -> Iv:
         if isinstance(e, ast.Constant):
@@ -245,36 +312,16 @@ class LenInterp:
             c = try_const(self.ctx, fi, e)
             if isinstance(c, str):
                 return Iv(len(c), len(c))
-            return Iv()
+            if isinstance(c, (int, float)) and not isinstance(c, bool):
+                return Iv(len(str(c)), len(str(c)), "num")
+            return U(f"the value of `{e.id}` is not tracked")
         if isinstance(e, ast.JoinedStr):
-            lo = hi = 0
-            derived = False
-            for p in e.values:
-                if isinstance(p, ast.Constant):
-                    lo += len(p.value); hi += len(p.value)
-                else:
-                    v = self.ev(fi, p.value, env)
-                    vlo, vhi = v.lo, v.hi
-                    if p.format_spec is not None:
-                        spec = try_const(self.ctx, fi, p.format_spec)
-                        w = _spec_min_width(spec) if isinstance(spec, str) else None
-                        if w is None and spec:
-                            vlo, vhi = 1, INF
-                        elif w:
-                            vlo = max(vlo, w)
-                            vhi = max(vhi, w)
-                        if isinstance(spec, str) and spec.endswith("f"):
-                            vlo, vhi = 1, INF
-                    lo += vlo
-                    hi += vhi
-                    if v.kind == "derived" and vhi == INF:
-                        derived = True
-            return Iv(lo, hi, "derived" if derived else "str")
+            return self.template(fi, [(p.value, None, None) if isinstance(p, ast.Constant) else (None, p.value, p.format_spec) for p in e.values], env)
         if isinstance(e, ast.BinOp) and isinstance(e.op, ast.Add):
             a, b = self.ev(fi, e.left, env), self.ev(fi, e.right, env)
             if a.kind == "num" or b.kind == "num":
                 return Iv(1, INF, "num")
-            return Iv(a.lo + b.lo, a.hi + b.hi)
+            return Iv(a.lo + b.lo, a.hi + b.hi, unsup=a.unsup or b.unsup)
         if isinstance(e, ast.BinOp):
             return Iv(1, INF, "num")
         if isinstance(e, ast.IfExp):
@@ -319,29 +366,64 @@ class LenInterp:
                             if fmt[i] == "%" and i + 1 < len(fmt):
                                 w = STRFTIME_WIDTH.get(fmt[i:i + 2])
                                 if w is None:
-                                    return Iv()
+                                    return U(f"strftime directive {fmt[i:i + 2]}")
                                 n += w
                                 i += 2
                             else:
                                 n += 1
                                 i += 1
                         return Iv(n, n)
-                    return Iv()
+                    return U("strftime pattern that is not a constant")
                 recv = self.ev(fi, e.func.value, env)
                 if m in ("strip", "rstrip", "lstrip", "lower", "upper"):
                     return Iv(0 if m.endswith("strip") else recv.lo, recv.hi)
                 if m == "replace" and len(e.args) == 2:
                     a, b = try_const(self.ctx, fi, e.args[0]), try_const(self.ctx, fi, e.args[1])
                     if isinstance(a, str) and isinstance(b, str) and len(b) <= len(a):
-                        return Iv(0, recv.hi)
-                    return Iv()
-                if m == "join":
-                    return Iv()
-                return Iv()
-            if isinstance(e.func, ast.Name) and e.func.id == "str" and e.args:
+                        return Iv(0, recv.hi, unsup=recv.unsup)
+                    return U("replace that may lengthen the text")
+                if m == "format":
+                    tpl = try_const(self.ctx, fi, e.func.value)
+                    if isinstance(tpl, str):
+                        import string
+                        parts, auto = [], 0
+                        try:
+                            for lit, field, spec, conv in string.Formatter().parse(tpl):
+                                if lit:
+                                    parts.append((lit, None, None))
+                                if field is None:
+                                    continue
+                                head = field.split(".")[0].split("[")[0]
+                                if head == "":
+                                    arg = e.args[auto] if auto < len(e.args) else None
+                                    auto += 1
+                                elif head.isdigit():
+                                    arg = e.args[int(head)] if int(head) < len(e.args) else None
+                                else:
+                                    arg = next((k.value for k in e.keywords if k.arg == head), None)
+                                if arg is None or head != field:
+                                    return U(f"format field `{{{field}}}`")
+                                parts.append((None, arg, spec if spec else None))
+                        except ValueError:
+                            return U("format template")
+                        return self.template(fi, parts, env)
+                    return U("str.format on a template that is not a constant")
+                if m in ("ljust", "rjust", "center", "zfill") and e.args:
+                    w = try_const(self.ctx, fi, e.args[0])
+                    if isinstance(w, int):
+                        return Iv(max(recv.lo, w), max(recv.hi, w), recv.kind, recv.unsup)
+                    return U(f"{m} with a width that is not a constant")
+                if m == "get" or m in ("pop", "setdefault"):
+                    return Iv()         # a value read from a table: any length
+                if m in ("removeprefix", "removesuffix", "expandtabs", "title", "capitalize", "casefold", "swapcase"):
+                    return Iv(0, recv.hi, recv.kind, recv.unsup)
+                return U(f"method `.{m}()`")
+            if isinstance(e.func, ast.Name) and e.func.id in ("str", "repr", "format") and e.args:
                 v = self.ev(fi, e.args[0], env)
                 return Iv(1, INF) if v.kind == "num" else v
-            return Iv()
+            if isinstance(e.func, ast.Name) and e.func.id in ("int", "float", "len", "abs", "round", "sum", "min", "max"):
+                return Iv(1, INF, "num")
+            return U(f"call `{short(e, 40)}`")
         if isinstance(e, ast.Attribute):
             c = try_const(self.ctx, fi, e)
             if isinstance(c, str):
@@ -398,6 +480,8 @@ def r_len(ctx) -> RuleResult:
             continue
         n += 1
         ok = iv.hi <= LIMIT
+        if not ok and iv.hi == INF and iv.unsup:
+            raise AnalysisError(f"R-LEN: cannot bound the length of `{short(call, 80)}` at {fi.loc(call)} ({iv.unsup}); neither proved nor refuted")
         if not ok and iv.hi == INF and iv.kind == "derived":
             raise AnalysisError(f"R-LEN: cannot bound the length of `{short(call, 80)}` at {fi.loc(call)} (slice with non-constant bounds); neither proved nor refuted")
         res.inst(fi.fq, short(call, 90), "ok" if ok else "fail", detail=f"length in {iv}")
